@@ -86,14 +86,20 @@ def _mixed_cond(depth):
     return st.one_of(_LEAF_COND, st.tuples(st.sampled_from(['and', 'or']), sub, sub), st.tuples(st.sampled_from(['and', 'or']), sub, sub), st.tuples(st.sampled_from(['and', 'or']), sub, sub))
 
 
+# branch values: general expressions and, now and then, `e - e`, which is read as the constant 0 (a literal 0 is
+# not in the generator's number pool): "ELSE X = 0" is the value pharmpy itself adds for a variable without
+# previous definition, so a *written* zero branch must be told apart from an added one
+_ZERO_EXPR = G.expr_strategy(0).map(lambda e: ('bin', 1, e, e))
+_BRANCH_EXPR = st.one_of(G.expr_strategy(1), G.expr_strategy(1), G.expr_strategy(1), _ZERO_EXPR)
+
 _LOGIC_STMT = st.one_of(
     st.tuples(st.just('a'), st.integers(0, 20), G.expr_strategy(2)),
     st.tuples(st.just('l'), _mixed_cond(3), st.integers(0, 20), G.expr_strategy(1)),
     st.tuples(st.just('l'), _mixed_cond(2), st.integers(0, 20), G.expr_strategy(2)),
     st.tuples(
         st.just('b'),
-        st.lists(st.tuples(_mixed_cond(2), st.lists(st.tuples(st.just('a'), st.integers(0, 20), G.expr_strategy(1)), min_size=1, max_size=2)), min_size=1, max_size=3),
-        st.one_of(st.none(), st.lists(st.tuples(st.just('a'), st.integers(0, 20), G.expr_strategy(1)), min_size=1, max_size=2)),
+        st.lists(st.tuples(_mixed_cond(2), st.lists(st.tuples(st.just('a'), st.integers(0, 20), _BRANCH_EXPR), min_size=1, max_size=2)), min_size=1, max_size=3),
+        st.one_of(st.none(), st.lists(st.tuples(st.just('a'), st.integers(0, 20), st.one_of(G.expr_strategy(1), _ZERO_EXPR)), min_size=1, max_size=2), st.lists(st.tuples(st.just('a'), st.integers(0, 20), _BRANCH_EXPR), min_size=1, max_size=2)),
     ),
 )
 LOGIC_SPEC = st.fixed_dictionaries(
